@@ -97,6 +97,37 @@ def case(args):
         sc.close()
 
 
+def rerun_case(args):
+    """history: a task's command writes all its outputs and then fails; the workflow is started again as it is (the temp dir
+    of the failed task, with everything the command wrote, is still there): the failure must not turn into success"""
+    seed, i = args
+    rng = random.Random(seed * 32452867 + i)
+    sp = t3.gen_workflow(rng, maxlen=3, nproc=rng.randint(2, 4))
+    base = t3.run_model(sp.text())
+    tasks = [t for t in base["tasks"] if t["status"] == "run"]
+    if not tasks:
+        return None
+    victim = rng.choice(tasks)
+    p = next(q for q in sp.procs() if q.name == victim["proc"])
+    cands = [os.path.basename(paths[0]) for _, k, paths in victim["ins"] if paths] + [v for _, v in victim["pars"]]
+    p.fail = rng.choice(["afterfull", "afterfull", "signal"])
+    p.failkey = rng.choice(cands) if cands else p.name
+    model = t3.run_model(sp.text())
+    if model["status"] != "done" or not model["failed"]:
+        return None
+    sc = t3.Scratch()
+    try:
+        sc.plant(sp.files)
+        r1 = t3.run_impl(sc, sp, timeout=60)
+        problems = [(k, "first run: " + m) for k, m in failure_monitor(sp, model, r1)]
+        r2 = t3.run_impl(sc, sp, timeout=60)
+        problems += [(k, "run again, as it is: " + m) for k, m in failure_monitor(sp, model, r2) if k != "foreign-file"]
+        return {"spec": sp.text(), "bufsize": sp.bufsize, "problems": problems, "ntasks": len(model["tasks"]), "rc": r2["rc"], "stderr": r2["stderr"][-300:],
+                "yield": None, "wall": r1["wall"], "mode": "rerun-after-" + p.fail, "gofunc": False, "status": "fail"}
+    finally:
+        sc.close()
+
+
 def run(rep, tier, seed):
     proved = vlib.prove(rep, MODULE, THEOREMS)
     ok, msg = vlib.build_ocaml()
@@ -104,10 +135,11 @@ def run(rep, tier, seed):
         raise RuntimeError("extraction/driver build failed: " + msg[-1500:])
     n = 120 if tier == "quick" else 2400
     results = [r for r in t3.run_many(case, [(seed, i) for i in range(n)]) if r]
+    results += [r for r in t3.run_many(rerun_case, [(seed, i) for i in range(n // 5)]) if r]
     t3.report_t3(rep, MODULE, proved, results, "T3 failure injection")
     rep.cov["evaluations"] = len(results)
     rep.cov["distinct_nontrivial"] = len({r["spec"] for r in results if r["ntasks"] >= 2})
-    rep.cov["rule"] = "random workflows in which one task (chosen among those the model executes) fails in one of five ways (non-zero exit before writing / after a partial write / after writing everything, output omitted, killed by SIGKILL), as a shell command or a Go function, while sibling processes are kept busy; plus task-formation failures (empty parameter value, invalid character in an output path); monitor: exit status non-zero, no completion marker, the failing task's outputs absent, no command outside the model's allowed set (no dependants), every finalized file has the model's content; non-trivial = at least two tasks in the workflow"
+    rep.cov["rule"] = "random workflows in which one task (chosen among those the model executes) fails in one of five ways (non-zero exit before writing / after a partial write / after writing everything, output omitted, killed by SIGKILL), as a shell command or a Go function, while sibling processes are kept busy; plus task-formation failures (empty parameter value, invalid character in an output path); histories in which the command wrote every output before it failed and the workflow is started again as it is; monitor: exit status non-zero, no completion marker, the failing task's outputs absent, no command outside the model's allowed set (no dependants), every finalized file has the model's content; non-trivial = at least two tasks in the workflow"
     rep.cov["samples"] = [results[0]["spec"]]
     modes = {}
     for r in results:
